@@ -1,4 +1,5 @@
 pub mod alloc;
+pub mod corpus;
 pub mod dynmap;
 pub mod dynshape;
 pub mod gen;
@@ -7,6 +8,7 @@ pub mod iodoubles;
 pub mod mutate;
 pub mod refcobs;
 pub mod refcodec;
+pub mod record;
 pub mod refcrc;
 pub mod runner;
 pub mod schematree;
